@@ -181,7 +181,7 @@ where
 
     fn snapshot(
         &self,
-        extra: &[(usize, F)],
+        extra: &[(usize, &F)],
         fmt_term: &dyn for<'id> Fn(&<F::Manager<'id> as Manager>::Terminal) -> String,
     ) -> String {
         // exclusive access: a background garbage collection (which runs under
@@ -424,11 +424,11 @@ where
 
     fn snapshot(&self) -> String {
         // the replacement functions held by live substitution objects are handles, too
-        let mut extra: Vec<(usize, F)> = Vec::new();
+        let mut extra: Vec<(usize, &F)> = Vec::new();
         for (sid, s) in &self.substs {
             use oxidd::Substitution;
             for (i, (_, r)) in s.pairs().enumerate() {
-                extra.push((1_000_000 + sid * 100 + i, r.clone()));
+                extra.push((1_000_000 + sid * 100 + i, r));
             }
         }
         self.core.snapshot(&extra, &|t| F::fmt_term(t))
